@@ -26,6 +26,11 @@ const (
 )
 
 func resolveErgoDir(start string) (string, error) {
+	// Search from the absolute start directory: a relative start (e.g. --dir .) would stop climbing at "."
+	// and yield relative paths (and relative file:// URLs) further on.
+	if abs, err := filepath.Abs(start); err == nil {
+		start = abs
+	}
 	current := start
 	for {
 		candidate := filepath.Join(current, dataDirName)
